@@ -727,6 +727,15 @@ func replayCorpus(c *hx.Ctx) {
 			if len(toks) > 0 && toks[0] == "C15" {
 				toks = toks[1:]
 			}
+			if kcfg, kq, gkOnly, ok := parseKeysCase(toks); ok {
+				if gkOnly {
+					emitGk(c, kcfg.selectors)
+				} else {
+					runKeysCase(c, kcfg, []query{kq}, false)
+				}
+				c.Count("corpus")
+				continue
+			}
 			if k, ok := parsePxCase(toks); ok {
 				emitPx(c, k)
 				c.Count("corpus")
@@ -759,6 +768,10 @@ func Run(c *hx.Ctx) {
 	c.Rng = hx.NewRng(mixSeed(c.Seed))
 	if len(c.Args) > 0 && c.Args[0] == "px-only" { // development aid: only the request-path stream
 		runPxStream(c)
+		return
+	}
+	if len(c.Args) > 0 && c.Args[0] == "keys-only" { // development aid: only the adversarial-key stream
+		runKeysStream(c)
 		return
 	}
 	if len(c.Args) > 0 && c.Args[0] == "wide-only" { // development aid: only the wide-selector stream
@@ -808,6 +821,8 @@ func Run(c *hx.Ctx) {
 		runCase(c, cfg, qs, len(cfg.selectors) > 0 && c.Rng.Chance(30))
 		c.Count("inner." + cfg.lbType)
 	}
+	// adversarial selector key strings, every configured selector requested: c15keys.go
+	runKeysStream(c)
 	// wide selectors (1..8 keys, several values of the last sorted key): c15wide.go
 	runWideStream(c)
 	// the request path: sequences of requests on one route through the real proxy core (c15px.go)
